@@ -372,6 +372,22 @@ class ProviderDispatcher(BaseProvider):
                     # property, because the CIM type cannot be inferred from
                     # a value of None.
                     cl_prop = creation_class.properties[pn]
+                    if cl_prop.qualifiers.get('key', False) and \
+                            cl_prop.value != instance[pn]:
+                        # Setting a key property to its class default
+                        # would modify the key (and would propagate into
+                        # the instance path).
+                        raise CIMError(
+                            CIM_ERR_INVALID_PARAMETER,
+                            _format("Property {0!A} in PropertyList is a "
+                                    "key property that is not specified in "
+                                    "the modified instance and thus would "
+                                    "be modified to its default value, "
+                                    "according to its creation class {1!A} "
+                                    "in namespace {2!A} of the CIM "
+                                    "repository",
+                                    pn, ModifiedInstance.classname,
+                                    namespace))
                     modified_instance[pn] = CIMProperty(
                         cl_prop.name, cl_prop.value, type=cl_prop.type,
                         reference_class=cl_prop.reference_class,
